@@ -143,8 +143,11 @@ def cli_runs(tmp, cases, envs):
         c, d, argv = job
         outs = {}
         for hs in envs:
-            r = subprocess.run([PY, "-m", "json_to_models"] + argv, capture_output=True, text=True, cwd=d,
-                               env=child_env(hashseed=hs), timeout=300)
+            from ..common import run_bounded
+            r = run_bounded([PY, "-m", "json_to_models"] + argv, timeout=120, capture_output=True, text=True, cwd=d,
+                            env=child_env(hashseed=hs))
+            if getattr(r, "timed_out", False):
+                return c, None
             txt = re.sub(r"(generated by json2python-models v\S+ at )[^\n]*", r"\1<time>", r.stdout)
             outs[str(hs)] = (r.returncode, txt)
         return c, outs
@@ -242,6 +245,9 @@ def main():
         ncli = 24 if tier() == "quick" else 200
         cli_cases = [c for c in cases if c["opts"]["framework"] != "sqlmodel" or True][:ncli]
         for c, outs in cli_runs(tmp, cli_cases, ["0", "7", "4242", None]):
+            if outs is None:
+                v.add({"cli": True, **c}, {"status": "inconclusive", "why": "case timeout", "witnesses": []})
+                continue
             texts = {t for _rc, t in outs.values()}
             v.counters["cli_runs"] += len(outs)
             if len(texts) > 1:
